@@ -26,10 +26,37 @@ pub unsafe extern "C" fn clock_gettime(clk: libc::clockid_t, ts: *mut libc::time
     libc::syscall(libc::SYS_clock_gettime, clk, ts) as libc::c_int
 }
 
+/// Deterministic entropy: std seeds every thread's `RandomState` (HashMap iteration order) from
+/// `getrandom`.  Third-party code under test iterates hash maps where order matters (ratatui's
+/// layout solver pivots in hash order and, for some orders, never terminates), which made whole
+/// runs irreproducible.  With this interposer every thread starts from the same keys
+/// (`VERIF_HASH_SEED`, default 0), so a history replayed in a fresh thread always hashes alike.
+#[no_mangle]
+pub unsafe extern "C" fn getrandom(buf: *mut libc::c_void, len: libc::size_t, _flags: libc::c_uint) -> libc::ssize_t {
+    static SEED: std::sync::OnceLock<u8> = std::sync::OnceLock::new();
+    let seed = *SEED.get_or_init(|| std::env::var("VERIF_HASH_SEED").ok().and_then(|s| s.parse::<u64>().ok()).unwrap_or(0) as u8);
+    let out = std::slice::from_raw_parts_mut(buf.cast::<u8>(), len);
+    for (i, b) in out.iter_mut().enumerate() {
+        *b = (i as u8).wrapping_mul(0x9d).wrapping_add(0x3c) ^ seed;
+    }
+    len as libc::ssize_t
+}
+
+/// Hash of a fixed value under a RandomState created in a fresh thread (self-test helper).
+pub fn fresh_thread_hash() -> u64 {
+    std::thread::spawn(|| {
+        use std::hash::BuildHasher;
+        std::collections::hash_map::RandomState::new().hash_one(0x1234_5678_u64)
+    })
+    .join()
+    .expect("MACHINERY: thread")
+}
+
 /// Set the virtual time of this thread (ns since the virtual base); `None` unsets it.
 pub fn set(ns: Option<u64>) {
     // keep the interposed symbol alive in every binary that links this library
     std::hint::black_box(clock_gettime as *const () as usize);
+    std::hint::black_box(getrandom as *const () as usize);
     VNOW.with(|v| v.set(ns.map_or(0, |n| BASE_NS + n)));
 }
 
@@ -67,4 +94,7 @@ pub fn self_test() {
         ok && ok2 && real > 1_600_000_000,
         "MACHINERY: virtual clock seam is not effective (clock_gettime not interposed)"
     );
+    // two fresh threads must seed their hash maps identically, and a known value must come out
+    let (a, b) = (fresh_thread_hash(), fresh_thread_hash());
+    assert!(a == b, "MACHINERY: entropy seam is not effective (getrandom not interposed): {a:#x} vs {b:#x}");
 }
